@@ -160,31 +160,85 @@ Proof.
     repeat (destruct Hin as [<-|Hin]; [cbn; auto|]); contradiction.
 Qed.
 
+Lemma wbeg_faults_kind x d e : In e (wbeg_faults x d) -> ek e = K_FAULT.
+Proof.
+  unfold wbeg_faults. intros H. apply in_app_or in H as [H|H];
+    [destruct (0 <? crd x)%nat|destruct (cdirty x)]; cbn in H; try contradiction;
+    destruct H as [<-|[]]; reflexivity.
+Qed.
+Lemma do_wbeg_events P t d g e : In e (snd (do_wbeg P t d g)) -> ek e = K_FAULT \/ ek e = K_WR_BEGIN.
+Proof.
+  unfold do_wbeg, ft_write. cbn [snd]. intros H. apply in_app_or in H as [H|[<-|[]]]; [|right; reflexivity].
+  left. eapply wbeg_faults_kind; eauto.
+Qed.
+Lemma do_rbeg_events t d g e : In e (snd (do_rbeg t d g)) -> ek e = K_FAULT \/ ek e = K_RD_BEGIN.
+Proof.
+  unfold do_rbeg, ft_read. cbn [snd]. intros H. apply in_app_or in H as [H|[<-|[]]]; [|right; reflexivity].
+  left. destruct (cdirty (cells g d)); cbn in H; try contradiction. destruct H as [<-|[]]; reflexivity.
+Qed.
+Lemma do_rend_events d g e : In e (snd (do_rend d g)) -> ek e = K_FAULT \/ ek e = K_RD_END.
+Proof.
+  unfold do_rend. cbn [snd]. intros H. apply in_app_or in H as [H|[<-|[]]]; [|right; reflexivity].
+  left. destruct (cdirty (cells g d)); cbn in H; try contradiction. destruct H as [<-|[]]; reflexivity.
+Qed.
+
+(* the shape of every step: new global state and the kinds of the emitted events, per pc *)
+Definition step_shape (P : params) (t c : nat) (g : glob) (lc : loc) (g' : glob) (lc' : loc) (es : list ev) : Prop :=
+  match at_ lc with
+  | Idle => exists o r, prog lc = o :: r /\ dispatch P g lc o r = (g', lc', es)
+  | P_store l => g' = do_store P t l g /\ lc' = goto lc Idle /\
+                 es = [EA K_STORE (lobj l) 1 (mo_code (st_mo P)); ret 0]
+  | P_load l k => g' = do_load P t c l g /\
+                  (forall e, In e es -> e = EA K_LOAD (lobj l) (load_val P t c l g) (mo_code (ld_mo P)) \/ ek e = K_RET) /\
+                  lc' = goto lc (match k with
+                                 | None => Idle
+                                 | Some d => if load_val P t c l g =? 0 then Idle else P_rbeg d
+                                 end)
+  | P_wbeg d v => g' = fst (do_wbeg P t d g) /\ lc' = goto lc (P_wend d v) /\
+                  (forall e, In e es -> ek e = K_FAULT \/ ek e = K_WR_BEGIN)
+  | P_wend d v => g' = do_wend d v g /\ lc' = goto lc Idle /\ es = [E K_WR_END (dobj d) v; ret 0]
+  | P_rbeg d => g' = fst (do_rbeg t d g) /\ lc' = goto lc (P_rend d) /\
+                (forall e, In e es -> ek e = K_FAULT \/ ek e = K_RD_BEGIN)
+  | P_rend d => g' = fst (do_rend d g) /\ lc' = goto lc Idle /\
+                (forall e, In e es -> ek e = K_FAULT \/ ek e = K_RD_END \/ ek e = K_RET)
+  end.
+
+Lemma tstep_shape P t c g lc g' lc' es :
+  tstep P t c g lc = Some (g', lc', es) -> step_shape P t c g lc g' lc' es.
+Proof.
+  intros Hs. unfold tstep in Hs. unfold step_shape. destruct (at_ lc) eqn:Hpc.
+  - destruct (prog lc) as [|o r]; [discriminate|]. inversion Hs. eauto.
+  - inversion Hs; subst. auto.
+  - cbv zeta in Hs. fold (goto lc Idle) in Hs.
+    destruct k as [d|]; [destruct (load_val P t c l g =? 0)|]; inversion Hs; subst;
+      (split; [reflexivity|split; [|reflexivity]]); intros e He; cbn in He;
+      intuition (subst; auto).
+  - destruct (do_wbeg P t d g) as [g1 es1] eqn:Ew. inversion Hs; subst.
+    split; [reflexivity|split; [reflexivity|]]. intros e He. apply (do_wbeg_events P t d g). rewrite Ew. exact He.
+  - inversion Hs; subst. auto.
+  - destruct (do_rbeg t d g) as [g1 es1] eqn:Ew. inversion Hs; subst.
+    split; [reflexivity|split; [reflexivity|]]. intros e He. apply (do_rbeg_events t d g). rewrite Ew. exact He.
+  - destruct (do_rend d g) as [g1 es1] eqn:Ew. inversion Hs; subst.
+    split; [reflexivity|split; [reflexivity|]]. intros e He. apply in_app_or in He as [He|[<-|[]]]; [|auto].
+    destruct (do_rend_events d g e) as [E|E]; [rewrite Ew; exact He|auto|auto].
+Qed.
+
 (* a load event is emitted exactly by the load step of isTripped, with the value the model read *)
 Lemma load_event P t c g lc g' lc' es ob v m :
   tstep P t c g lc = Some (g', lc', es) -> In (Ev K_LOAD ob v m) es ->
   exists l k, at_ lc = P_load l k /\ ob = lobj l /\ v = load_val P t c l g /\ g' = do_load P t c l g.
 Proof.
-  intros Hs Hin. unfold tstep in Hs. destruct (at_ lc) eqn:Hpc.
-  - destruct (prog lc); [discriminate|]. inversion Hs as [Hd]. 
+  intros Hs Hin. pose proof (tstep_shape _ _ _ _ _ _ _ _ Hs) as Sh. unfold step_shape in Sh.
+  destruct (at_ lc) eqn:Hpc.
+  - destruct Sh as (o & r & _ & Hd).
     destruct (dispatch_events _ _ _ _ _ _ _ _ _ Hd Hin) as [E|[E|[E|E]]]; cbn in E; discriminate.
-  - inversion Hs; subst. cbn in Hin. destruct Hin as [E|[E|[]]]; discriminate.
-  - exists l, k. split; [reflexivity|].
-    destruct k as [d|]; [destruct (load_val P t c l g =? 0)|]; inversion Hs; subst; cbn in Hin;
-      repeat (destruct Hin as [E|Hin]; [inversion E; subst; auto; try discriminate|]); try contradiction.
-  - unfold do_wbeg, wbeg_faults in Hs. cbn in Hs. inversion Hs; subst.
-    apply in_app_or in Hin as [Hin|[E|[]]]; [|discriminate].
-    apply in_app_or in Hin as [Hin|Hin];
-      [destruct (0 <? crd (cells g d))%nat|destruct (cdirty (cells g d))]; cbn in Hin;
-      try contradiction; destruct Hin as [E|[]]; discriminate.
-  - inversion Hs; subst. cbn in Hin. destruct Hin as [E|[E|[]]]; discriminate.
-  - unfold do_rbeg in Hs. cbn in Hs. inversion Hs; subst.
-    apply in_app_or in Hin as [Hin|[E|[]]]; [|discriminate].
-    destruct (cdirty (cells g d)); cbn in Hin; try contradiction; destruct Hin as [E|[]]; discriminate.
-  - unfold do_rend in Hs. cbn in Hs. inversion Hs; subst.
-    apply in_app_or in Hin as [Hin|[E|[]]]; [|discriminate].
-    apply in_app_or in Hin as [Hin|[E|[]]]; [|discriminate].
-    destruct (cdirty (cells g d)); cbn in Hin; try contradiction; destruct Hin as [E|[]]; discriminate.
+  - destruct Sh as (_ & _ & ->). cbn in Hin. destruct Hin as [E|[E|[]]]; discriminate.
+  - destruct Sh as (-> & He & _). exists l, k. split; [reflexivity|].
+    destruct (He _ Hin) as [E|E]; [|cbn in E; discriminate]. inversion E; subst. auto.
+  - destruct Sh as (_ & _ & He). destruct (He _ Hin) as [E|E]; cbn in E; discriminate.
+  - destruct Sh as (_ & _ & ->). cbn in Hin. destruct Hin as [E|[E|[]]]; discriminate.
+  - destruct Sh as (_ & _ & He). destruct (He _ Hin) as [E|E]; cbn in E; discriminate.
+  - destruct Sh as (_ & _ & He). destruct (He _ Hin) as [E|[E|E]]; cbn in E; discriminate.
 Qed.
 
 (* a store event is emitted exactly by the store step of ~TripWireTrigger, always with value true *)
@@ -192,26 +246,17 @@ Lemma store_event P t c g lc g' lc' es ob v m :
   tstep P t c g lc = Some (g', lc', es) -> In (Ev K_STORE ob v m) es ->
   exists l, at_ lc = P_store l /\ ob = lobj l /\ v = 1 /\ g' = do_store P t l g.
 Proof.
-  intros Hs Hin. unfold tstep in Hs. destruct (at_ lc) eqn:Hpc.
-  - destruct (prog lc); [discriminate|]. inversion Hs as [Hd].
+  intros Hs Hin. pose proof (tstep_shape _ _ _ _ _ _ _ _ Hs) as Sh. unfold step_shape in Sh.
+  destruct (at_ lc) eqn:Hpc.
+  - destruct Sh as (o & r & _ & Hd).
     destruct (dispatch_events _ _ _ _ _ _ _ _ _ Hd Hin) as [E|[E|[E|E]]]; cbn in E; discriminate.
-  - inversion Hs; subst. cbn in Hin. destruct Hin as [E|[E|[]]]; [|discriminate].
+  - destruct Sh as (-> & _ & ->). cbn in Hin. destruct Hin as [E|[E|[]]]; [|discriminate].
     inversion E; subst. exists l. auto.
-  - destruct k as [d|]; [destruct (load_val P t c l g =? 0)|]; inversion Hs; subst; cbn in Hin;
-      repeat (destruct Hin as [E|Hin]; [discriminate|]); contradiction.
-  - unfold do_wbeg, wbeg_faults in Hs. cbn in Hs. inversion Hs; subst.
-    apply in_app_or in Hin as [Hin|[E|[]]]; [|discriminate].
-    apply in_app_or in Hin as [Hin|Hin];
-      [destruct (0 <? crd (cells g d))%nat|destruct (cdirty (cells g d))]; cbn in Hin;
-      try contradiction; destruct Hin as [E|[]]; discriminate.
-  - inversion Hs; subst. cbn in Hin. destruct Hin as [E|[E|[]]]; discriminate.
-  - unfold do_rbeg in Hs. cbn in Hs. inversion Hs; subst.
-    apply in_app_or in Hin as [Hin|[E|[]]]; [|discriminate].
-    destruct (cdirty (cells g d)); cbn in Hin; try contradiction; destruct Hin as [E|[]]; discriminate.
-  - unfold do_rend in Hs. cbn in Hs. inversion Hs; subst.
-    apply in_app_or in Hin as [Hin|[E|[]]]; [|discriminate].
-    apply in_app_or in Hin as [Hin|[E|[]]]; [|discriminate].
-    destruct (cdirty (cells g d)); cbn in Hin; try contradiction; destruct Hin as [E|[]]; discriminate.
+  - destruct Sh as (_ & He & _). destruct (He _ Hin) as [E|E]; [discriminate|cbn in E; discriminate].
+  - destruct Sh as (_ & _ & He). destruct (He _ Hin) as [E|E]; cbn in E; discriminate.
+  - destruct Sh as (_ & _ & ->). cbn in Hin. destruct Hin as [E|[E|[]]]; discriminate.
+  - destruct Sh as (_ & _ & He). destruct (He _ Hin) as [E|E]; cbn in E; discriminate.
+  - destruct Sh as (_ & _ & He). destruct (He _ Hin) as [E|[E|E]]; cbn in E; discriminate.
 Qed.
 
 (* the value a load returns: 1 iff it read a real message (given one-way), 0 for the initial value *)
@@ -248,3 +293,167 @@ Proof. intros Hs Hin. destruct (store_event _ _ _ _ _ _ _ _ _ _ _ Hs Hin) as (l 
 
 Lemma no_null_deref P progs s : unfixed P = false -> R P progs s -> gnull (gl s) = false.
 Proof. intros Hu HR. apply (I_null _ _ _ (R_Inv0 _ _ _ HR) Hu). Qed.
+
+(* ---------- monotone parts of the state ---------- *)
+Definition grows (g g' : glob) : Prop :=
+  (forall u l, (seen g u l <= seen g' u l)%nat) /\
+  (forall l, (length (hs g l) <= length (hs g' l))%nat) /\
+  (forall u, vle (clk g u) (clk g' u)).
+
+Lemma grows_refl g : grows g g.
+Proof. repeat split; intros; try lia. apply vle_refl. Qed.
+Lemma grows_trans a b c : grows a b -> grows b c -> grows a c.
+Proof.
+  intros (A1 & A2 & A3) (B1 & B2 & B3). repeat split; intros.
+  - specialize (A1 u l). specialize (B1 u l). lia.
+  - specialize (A2 l). specialize (B2 l). lia.
+  - eapply vle_trans; eauto.
+Qed.
+
+Lemma clk_fupd_mono (k : nat -> vc) t v u : vle (k t) v -> vle (k u) (fupd k t v u).
+Proof. intros H. unfold fupd. destruct (Nat.eqb_spec u t) as [->|]; [exact H|apply vle_refl]. Qed.
+
+Lemma tstep_grows P t c g lc g' lc' es : tstep P t c g lc = Some (g', lc', es) -> grows g g'.
+Proof.
+  intros Hs. pose proof (tstep_shape _ _ _ _ _ _ _ _ Hs) as Sh. unfold step_shape in Sh.
+  destruct (at_ lc) eqn:Hpc.
+  - destruct Sh as (o & r & _ & Hd). destruct (dispatch_glob _ _ _ _ _ _ _ _ Hd); repeat split; cbn; intros; try lia; apply vle_refl.
+  - destruct Sh as (-> & _ & _). repeat split; intros.
+    + rewrite seen_do_store. destruct (Nat.eqb_spec u t) as [->|], (Nat.eqb_spec l0 l) as [->|]; cbn [andb]; lia.
+    + rewrite hs_do_store. destruct (Nat.eqb_spec l0 l) as [->|]; cbn [length]; lia.
+    + cbn. apply clk_fupd_mono. apply vle_inc.
+  - destruct Sh as (-> & _ & _). repeat split; intros.
+    + rewrite seen_do_load. destruct (Nat.eqb_spec u t) as [->|], (Nat.eqb_spec l0 l) as [->|]; cbn [andb]; lia.
+    + cbn. lia.
+    + cbn. apply clk_fupd_mono. apply read_clock_mono.
+  - destruct Sh as (-> & _ & _). unfold do_wbeg, ft_write. cbn. apply grows_refl.
+  - destruct Sh as (-> & _ & _). apply grows_refl.
+  - destruct Sh as (-> & _ & _). unfold do_rbeg, ft_read. cbn. apply grows_refl.
+  - destruct Sh as (-> & _ & _). apply grows_refl.
+Qed.
+
+Lemma step_sys P (s : sysT) tc :
+  step glob loc (tstep P) s tc = s \/
+  exists t c lc g' lc' es, tc = (t, c) /\ nth_error (thr s) t = Some lc /\
+    tstep P t c (gl s) lc = Some (g', lc', es) /\ step glob loc (tstep P) s tc = Sys g' (upd (thr s) t lc').
+Proof.
+  unfold step, sys_step. destruct tc as [t c].
+  destruct (nth_error (thr s) t) as [lc|] eqn:Hl; [|left; reflexivity].
+  destruct (tstep P t c (gl s) lc) as [[[g' lc'] es]|] eqn:Hs; [|left; reflexivity].
+  right. exists t, c, lc, g', lc', es. auto.
+Qed.
+
+Lemma reachable_grows P (s s' : sysT) : reachable glob loc (tstep P) s s' -> grows (gl s) (gl s').
+Proof.
+  intros [sc ->].
+  apply (run_rel glob loc (tstep P) (fun a b => grows (gl a) (gl b))).
+  - intros; apply grows_refl.
+  - intros a b c; apply grows_trans.
+  - intros a tc. destruct (step_sys P a tc) as [->|(t & c & lc & g' & lc' & es & _ & _ & Hs & ->)].
+    + apply grows_refl.
+    + cbn. eapply tstep_grows; eauto.
+Qed.
+
+(* ---------- monotone per thread (coherence) ---------- *)
+Lemma load_seen P t c l g : load_val P t c l g = 1 -> (0 < seen (do_load P t c l g) t l)%nat.
+Proof.
+  intros Hv. rewrite seen_do_load, !Nat.eqb_refl. cbn [andb]. unfold read_stamp.
+  unfold load_val, read_val in Hv. destruct (nth_error (hs g l) (load_idx P t c l g)) eqn:E; [|discriminate].
+  assert (load_idx P t c l g < length (hs g l))%nat by (apply nth_error_Some; congruence). lia.
+Qed.
+
+Lemma seen_load_true P progs s t c l : R P progs s -> (0 < seen (gl s) t l)%nat -> load_val P t c l (gl s) = 1.
+Proof.
+  intros HR Hs. pose proof (R_Inv0 _ _ _ HR) as HI.
+  destruct (pick_bounds (views P) (hs (gl s) l) (clk (gl s) t) (seen (gl s) t l) c (I_seen _ _ _ HI t l)) as [_ Hb].
+  fold (load_idx P t c l (gl s)) in Hb.
+  destruct (load_val_cases P t c l (gl s) (I_oneway _ _ _ HI l)) as [[H1 _]|[_ Hge]]; [exact H1|lia].
+Qed.
+
+Lemma monotone P progs s1 t c1 lc1 g1 lc1' es1 l m1 s2 c2 lc2 g2 lc2' es2 v m2 :
+  R P progs s1 -> nth_error (thr s1) t = Some lc1 -> tstep P t c1 (gl s1) lc1 = Some (g1, lc1', es1) ->
+  In (Ev K_LOAD (lobj l) 1 m1) es1 ->
+  reachable glob loc (tstep P) (Sys g1 (upd (thr s1) t lc1')) s2 ->
+  nth_error (thr s2) t = Some lc2 -> tstep P t c2 (gl s2) lc2 = Some (g2, lc2', es2) ->
+  In (Ev K_LOAD (lobj l) v m2) es2 -> v = 1.
+Proof.
+  intros HR Hl1 Hs1 Hin1 Hreach Hl2 Hs2 Hin2.
+  destruct (load_event _ _ _ _ _ _ _ _ _ _ _ Hs1 Hin1) as (l0 & k & _ & Hob & Hv & Hg).
+  apply lobj_inj in Hob. subst l0.
+  assert (0 < seen g1 t l)%nat as Hseen1 by (rewrite Hg; apply load_seen; auto).
+  assert (R P progs (Sys g1 (upd (thr s1) t lc1'))) as HR1.
+  { assert (Sys g1 (upd (thr s1) t lc1') = step glob loc (tstep P) s1 (t, c1)) as ->.
+    { unfold step, sys_step. rewrite Hl1, Hs1. reflexivity. }
+    apply reachable_step. exact HR. }
+  assert (R P progs s2) as HR2 by (eapply reachable_trans; eauto).
+  destruct (reachable_grows _ _ _ Hreach) as (Hmono & _ & _). cbn in Hmono.
+  destruct (load_event _ _ _ _ _ _ _ _ _ _ _ Hs2 Hin2) as (l0 & k2 & _ & Hob & -> & _).
+  apply lobj_inj in Hob. subst l0.
+  apply (seen_load_true P progs s2 t c2 l HR2). specialize (Hmono t l). lia.
+Qed.
+
+(* a load that happens-after a trip store returns true *)
+Lemma hb_true P progs s t c l m :
+  R P progs s -> In m (hs (gl s) l) -> known (clk (gl s) t) m = true -> load_val P t c l (gl s) = 1.
+Proof.
+  intros HR Hin Hk. pose proof (R_Inv0 _ _ _ HR) as HI.
+  destruct (In_nth_error _ _ Hin) as [j Hj].
+  pose proof (pick_known (views P) _ _ _ c _ _ (I_seen _ _ _ HI t l) Hj Hk) as Hle.
+  fold (load_idx P t c l (gl s)) in Hle.
+  assert (j < length (hs (gl s) l))%nat by (apply nth_error_Some; congruence).
+  destruct (load_val_cases P t c l (gl s) (I_oneway _ _ _ HI l)) as [[H1 _]|[_ Hge]]; [exact H1|lia].
+Qed.
+
+(* sequentially consistent instance: once stored to, every load by every thread returns true *)
+Lemma sc_load_true P progs s t c l :
+  views P = false -> R P progs s -> hs (gl s) l <> [] -> load_val P t c l (gl s) = 1.
+Proof.
+  intros Hv HR Hne. pose proof (R_Inv0 _ _ _ HR) as HI.
+  unfold load_val, load_idx, pick. rewrite Hv. cbn [andb]. unfold read_val.
+  destruct (hs (gl s) l) as [|m h] eqn:E; [congruence|]. cbn. apply (I_oneway _ _ _ HI l). rewrite E. left; reflexivity.
+Qed.
+
+Lemma sc_forever P progs s1 t1 c1 lc1 g1 lc1' es1 l v1 m1 s2 t2 c2 lc2 g2 lc2' es2 v m2 :
+  views P = false ->
+  R P progs s1 -> nth_error (thr s1) t1 = Some lc1 -> tstep P t1 c1 (gl s1) lc1 = Some (g1, lc1', es1) ->
+  In (Ev K_STORE (lobj l) v1 m1) es1 ->
+  reachable glob loc (tstep P) (Sys g1 (upd (thr s1) t1 lc1')) s2 ->
+  nth_error (thr s2) t2 = Some lc2 -> tstep P t2 c2 (gl s2) lc2 = Some (g2, lc2', es2) ->
+  In (Ev K_LOAD (lobj l) v m2) es2 -> v = 1.
+Proof.
+  intros Hv HR Hl1 Hs1 Hin1 Hreach Hl2 Hs2 Hin2.
+  destruct (store_event _ _ _ _ _ _ _ _ _ _ _ Hs1 Hin1) as (l0 & _ & Hob & _ & Hg).
+  apply lobj_inj in Hob. subst l0.
+  assert (R P progs (Sys g1 (upd (thr s1) t1 lc1'))) as HR1.
+  { assert (Sys g1 (upd (thr s1) t1 lc1') = step glob loc (tstep P) s1 (t1, c1)) as ->.
+    { unfold step, sys_step. rewrite Hl1, Hs1. reflexivity. }
+    apply reachable_step. exact HR. }
+  assert (R P progs s2) as HR2 by (eapply reachable_trans; eauto).
+  destruct (reachable_grows _ _ _ Hreach) as (_ & Hlen & _). cbn in Hlen. specialize (Hlen l).
+  rewrite Hg, hs_do_store, Nat.eqb_refl in Hlen. cbn in Hlen.
+  destruct (load_event _ _ _ _ _ _ _ _ _ _ _ Hs2 Hin2) as (l0 & k2 & _ & Hob & -> & _).
+  apply lobj_inj in Hob. subst l0.
+  apply (sc_load_true P progs s2 t2 c2 l Hv HR2). intros E. rewrite E in Hlen. cbn in Hlen. lia.
+Qed.
+
+(* ---------- lines are independent ---------- *)
+Lemma lines_independent P t c g lc g' lc' es l' :
+  tstep P t c g lc = Some (g', lc', es) ->
+  (forall v m, ~ In (Ev K_STORE (lobj l') v m) es) -> hs g' l' = hs g l'.
+Proof.
+  intros Hs Hno. pose proof (tstep_shape _ _ _ _ _ _ _ _ Hs) as Sh. unfold step_shape in Sh.
+  destruct (at_ lc) eqn:Hpc.
+  - destruct Sh as (o & r & _ & Hd). destruct (dispatch_glob _ _ _ _ _ _ _ _ Hd); reflexivity.
+  - destruct Sh as (-> & _ & ->). rewrite hs_do_store. destruct (Nat.eqb_spec l' l) as [->|]; [|reflexivity].
+    exfalso. eapply Hno. left. reflexivity.
+  - destruct Sh as (-> & _ & _). reflexivity.
+  - destruct Sh as (-> & _ & _). unfold do_wbeg, ft_write. reflexivity.
+  - destruct Sh as (-> & _ & _). reflexivity.
+  - destruct Sh as (-> & _ & _). unfold do_rbeg, ft_read. reflexivity.
+  - destruct Sh as (-> & _ & _). reflexivity.
+Qed.
+
+(* what a detector on l reads depends on l's history only (and on the reader's own view) *)
+Lemma load_depends_on_own_line P t c l g g2 :
+  hs g2 l = hs g l -> clk g2 t = clk g t -> seen g2 t l = seen g t l -> load_val P t c l g2 = load_val P t c l g.
+Proof. intros H1 H2 H3. unfold load_val, load_idx. rewrite H1, H2, H3. reflexivity. Qed.
